@@ -509,6 +509,67 @@ func transformFile(fset *token.FileSet, path string, src []byte, kind string, in
 			n++
 			return true
 		})
+	case "add-log":
+		// a trace line at the top of every function, if, for and case body (people add and remove
+		// log lines all the time). Functions that declare their own `log` are left alone.
+		shadows := func(fd *ast.FuncDecl) bool {
+			sh := false
+			ast.Inspect(fd, func(nd ast.Node) bool {
+				switch x := nd.(type) {
+				case *ast.Field:
+					for _, nm := range x.Names {
+						if nm.Name == "log" {
+							sh = true
+						}
+					}
+				case *ast.AssignStmt:
+					if x.Tok == token.DEFINE {
+						for _, l := range x.Lhs {
+							if id, ok := l.(*ast.Ident); ok && id.Name == "log" {
+								sh = true
+							}
+						}
+					}
+				}
+				return true
+			})
+			return sh
+		}
+		mk := func() ast.Stmt {
+			return &ast.ExprStmt{X: &ast.CallExpr{
+				Fun:  &ast.SelectorExpr{X: ast.NewIdent("log"), Sel: ast.NewIdent("Tracef")},
+				Args: []ast.Expr{&ast.BasicLit{Kind: token.STRING, Value: `"benign trace"`}},
+			}}
+		}
+		for _, d := range f.Decls {
+			fd, ok := d.(*ast.FuncDecl)
+			if !ok || fd.Body == nil || shadows(fd) {
+				continue
+			}
+			ast.Inspect(fd, func(nd ast.Node) bool {
+				switch x := nd.(type) {
+				case *ast.FuncDecl:
+					x.Body.List = append([]ast.Stmt{mk()}, x.Body.List...)
+					n++
+				case *ast.FuncLit:
+					x.Body.List = append([]ast.Stmt{mk()}, x.Body.List...)
+					n++
+				case *ast.IfStmt:
+					x.Body.List = append([]ast.Stmt{mk()}, x.Body.List...)
+					n++
+				case *ast.ForStmt:
+					x.Body.List = append([]ast.Stmt{mk()}, x.Body.List...)
+					n++
+				case *ast.CaseClause:
+					x.Body = append([]ast.Stmt{mk()}, x.Body...)
+					n++
+				case *ast.CommClause:
+					x.Body = append([]ast.Stmt{mk()}, x.Body...)
+					n++
+				}
+				return true
+			})
+		}
 	case "rename":
 		// needs type information of the ORIGINAL file: rename by position
 		if info == nil || origFile == nil {
@@ -601,7 +662,7 @@ func runBenignFuzz(repo, verif string, only string) int {
 			}
 		}
 	}
-	kinds := []string{"swap-eq", "flip-rel", "negate-if", "for-cond", "noop", "rename", "switch-to-if", "if-to-switch", "demorgan", "swap-add", "unnest-else", "nest-else", "reverse-select", "reverse-typeswitch"}
+	kinds := []string{"swap-eq", "flip-rel", "negate-if", "for-cond", "noop", "rename", "switch-to-if", "if-to-switch", "demorgan", "swap-add", "unnest-else", "nest-else", "reverse-select", "reverse-typeswitch", "add-log"}
 	var variants []benignVariant
 	tmp, err := os.MkdirTemp("", "benignfuzz")
 	if err != nil {
